@@ -620,7 +620,13 @@ def plan_c15(prop, tier, seed, t0):
             out.append({"id": "c15-lim-%d-%d" % (n, mx), "cap": 16, "seed": seed + i, "phase": 0,
                         "meta": {"clock": "paused", "proj": V.proj_map(), "src": "limits", "light": n > 50}, "steps": steps})
         return out
-    return core_check(prop, tier, seed, t0, over, extra_scenarios=extra, explore=[("data", 32, 1000)],
+    # ... "otherwise it returns as soon as at least one message is available": the blocked-Pull
+    # members of the wake-up families of C06 (the W9 big-backlog ones are in `extra` already)
+    def waiting(quick, sd):
+        return [s for s in c06_scenarios(6 if quick else 60, sd)
+                if any(w in s["id"] for w in ("-W1-", "-W2-", "-W3-", "-W4-", "-W5-", "-W10-", "-W11-", "-W12-"))]
+    return core_check(prop, tier, seed, t0, over, extra_scenarios=lambda quick, sd: extra(quick, sd) + waiting(quick, sd),
+                      explore=[("data", 32, 1000), ("consumers", 16, 1000)],
                       thorough={"mc": dict(MaxOps=7, MaxMsgs=5)})
 
 
